@@ -359,7 +359,7 @@ struct Scenario {
       bool tcp_attempted = false; for (auto &k : w.socks) if (k.tcp && k.server >= 0 && k.opened_at >= t.t) tcp_attempted = true;
       if (!upgraded && !tcp_attempted && q && q->calls == 1 && q->status == ARES_SUCCESS && q->tx_at_end > t.seq) { bool from_tc = false; for (uint32_t ser : q->serials) if (ser == t.serial) from_tc = true; if (from_tc) fail(r, "C20.truncated-udp-answer-accepted", "request " + std::to_string(t.req) + " was completed with a truncated UDP answer although IGNTC is not set"); }
       // ... and it must actually go out over TCP: with a well-behaved virtual network nothing prevents the TCP transmission
-      if (prop == "C20" && !upgraded && q && q->calls == 1 && q->status == ARES_ETIMEOUT && !r.counters["c20.conn_killing_outcomes"]) fail(   // (C20 scenarios have no clock jumps and one name per request)r, "C20.truncated-answer-not-retried-over-tcp", "request " + std::to_string(t.req) + " got a truncated UDP answer for " + t.qname_lower + " and then timed out without the question ever reaching the server over TCP");
+      if (prop == "C20" && !upgraded && q && q->calls == 1 && q->status == ARES_ETIMEOUT && !r.counters["c20.conn_killing_outcomes"]) fail(r, "C20.truncated-answer-not-retried-over-tcp", "request " + std::to_string(t.req) + " got a truncated UDP answer for " + t.qname_lower + " and then timed out without the question ever reaching the server over TCP");
       r.counters[upgraded ? "c20.tc_upgraded_to_tcp" : "c20.tc_not_upgraded"]++;
     }
     r.counters["c20.split_reads"] += w.split_reads; r.counters["c20.short_writes"] += w.short_writes; r.counters["c20.blocked_writes"] += w.blocked_writes;
